@@ -156,6 +156,9 @@ class Parser(object):
                     self._parser_check(self._is_type_sizer_compatible(bound.type_name),
                                        "Sizer of '{}' has to be of (unsigned) integer type".format(name),
                                        line, pos)
+                    self._parser_check(not bound.optional and not bound.is_array,
+                                       "Sizer of '{}' must not be an optional or an array".format(name),
+                                       line, pos)
                 else:
                     self._parser_error("Sizer of '{}' has to be defined before the array".format(name),
                                        line, pos)
@@ -246,6 +249,11 @@ class Parser(object):
 
     def p_enum_member(self, t):
         '''enum_member : unique_id EQUALS expression'''
+        self._parser_check(
+            0 <= t[3] <= 0xFFFFFFFF,
+            "enumerator '{}' value '{}' out of 32-bit unsigned range".format(t[1], t[3]),
+            t.lineno(2), t.lexpos(2)
+        )
         member = model.EnumMember(t[1], str(t[3]))
         self.constdecls[t[1]] = member
         t[0] = member
@@ -369,6 +377,11 @@ class Parser(object):
 
     def p_union_member(self, t):
         '''union_member : expression COLON type_spec ID'''
+        self._parser_check(
+            0 <= t[1] <= 0xFFFFFFFF,
+            "discriminator '{}' of '{}' out of 32-bit unsigned range".format(t[1], t[4]),
+            t.lineno(4), t.lexpos(4)
+        )
         t[0] = (model.UnionMember(t[4], t[3][0], str(t[1]), definition=t[3][1]), t.lineno(4), t.lexpos(4))
 
     def p_type_spec_1(self, t):
